@@ -181,7 +181,19 @@ def r3(ctx):
         at = Slicer(ctx.w).atoms(b, o["t"]["args"][1])
         ctx.inst(R, "egress:is_local-of-dst", "field:turmoil_net::kernel::packet::Packet::dst" in at and "field:turmoil_net::kernel::packet::Packet::src" not in at,
                  o["t"]["s"], "locality decided by the destination address")
-    ctx.floor(R, 3)
+    # between the kernels and the rule chain nothing is taken out again: what Kernel::egress handed over is what the scheduler evaluates
+    DROPS = re.compile(r"^std::vec::Vec::(retain|retain_mut|remove|swap_remove|truncate|clear|drain|pop|dedup|dedup_by|dedup_by_key|split_off)$")
+    for fid in ("turmoil_net::fabric::Fabric::egress_all", "turmoil_net::EnterGuard::egress_all", "turmoil_net::Net::egress_all"):
+        eb = ctx.w.bodies.get(fid)
+        if not eb:
+            continue
+        bad = [t for fb in ctx.w.family(fid) for bb, t in fb.calls(DROPS)
+               if t["args"] and any(re.match(r"arg:\d+:", a) and "Vec" in fb.ty_str(fb.locals[int(a.split(":")[1])]["ty"]) if a.split("@")[-1] == fb.id else False
+                                    for a in Slicer(ctx.w).atoms(fb, t["args"][0]))]
+        ctx.inst(R, f"{fid.rsplit('::', 2)[-2]}::egress_all:hands-over-everything", not bad, bad[0]["s"] if bad else eb.span, "every packet collected from the hosts is handed to the rule chain" if not bad else
+                 f"`{fid}` removes packets from the batch it collected (`{bad[0]['f'].rsplit('::', 1)[1]}`): a packet that left its host is never shown to the rules - a counting or "
+                 "recording rule misses it and every later decision of a stateful rule shifts")
+    ctx.floor(R, 4)
 
 
 def _schedule_fn(ctx):
